@@ -13,7 +13,7 @@ use serde_json::{json, Value as J};
 const P: &str = "C05";
 
 pub const W_KEYS: Weights = Weights { create: 4, drop: 1, insert: 14, update: 16, delete: 8, select: 1, wstream: 0, rstream: 0, summary: 0, sum_cp: 0, db_cp: 0, flush: 1, reopen: 5 };
-pub const KEYS: Profile = Profile { name: "keys", allow_empty: true, allow_key_update: true, allow_long: false, codepages: false, non_ascii: true, try_invalid: true };
+pub const KEYS: Profile = Profile { name: "keys", allow_empty: true, allow_key_update: true, allow_long: true, codepages: false, non_ascii: true, try_invalid: true };
 
 /// The invariant on one table as reported by the API.
 pub fn table_invariant(name: &str, cols: &[ColDef], rows: &[Vec<V>]) -> Result<(), (String, String)> {
